@@ -182,6 +182,10 @@ class Interp(ExprMixin, StmtMixin):
 
     def call_value(self, f, args, kwargs, path, node=None, env=None):
         if isinstance(f, Stub):
+            if getattr(f, "memoised", False):
+                h = self.hooks.get("memo_call")
+                if h is not None:
+                    h(self, path, f, args, kwargs)
             if f.assumed:
                 self.assumed_used.add(f"{f.name}: {f.assumed}")
             self.check_call_shape(getattr(f, "qualname", None), args, kwargs)
@@ -530,6 +534,8 @@ class Interp(ExprMixin, StmtMixin):
         make_args(interp, path) -> (args, kwargs[, self_obj])
         Returns list of (path, Outcome, extra) where extra carries obligations recorded on that path.
         """
+        from . import driver as _drv
+        _drv.LAST_FUNC = qualname
         try:
             mod, chain, node = self.src.find_def(qualname)
         except KeyError:
